@@ -105,7 +105,7 @@ void battery_group(hwloc_topology_t t, int group, struct sb *b)
     canon(&tmp, t, CANON_CPUKINDS);
     const char *p = strstr(tmp.s, "cpukinds["); if (p) sb_puts(b, p);
     sb_free(&tmp);
-    for (hwloc_obj_t o = root; o; o = o->first_child) sb_printf(b, "kind_of=%d/%d;", hwloc_cpukinds_get_by_cpuset(t, o->cpuset, 0), errno == EXDEV || errno == ENOENT ? errno : 0);
+    for (hwloc_obj_t o = root; o; o = o->first_child) { errno = 0; int k = hwloc_cpukinds_get_by_cpuset(t, o->cpuset, 0); sb_printf(b, "kind_of=%d/%d;", k, k < 0 && (errno == EXDEV || errno == ENOENT) ? errno : 0); }   /* errno only means something after a failure */
     break; }
   case BAT_SETS:
     put_bitmap_queries(b, hwloc_topology_get_topology_cpuset(t)); put_bitmap_queries(b, hwloc_topology_get_complete_cpuset(t));
